@@ -693,6 +693,9 @@ def main():
     ap.add_argument("--mem", action="store_true",
                     help="additionally compare the allocator's live block count after every op (driver built with "
                          "-DLHASA_VERIF and harness/c/verif_alloc.c) with the ledger coq/ReaderMem.v (model command rdrmem)")
+    ap.add_argument("--memfail", type=int, default=0,
+                    help="for N protocol-respecting cases fail each allocation request in turn and compare the C with "
+                         "the ledger with failing allocations coq/ReaderMemFail.v (model command rdrmemfail)")
     ap.add_argument("--failinj", type=int, default=0,
                     help="C only: for N protocol-respecting cases fail each allocation request in turn")
     ap.add_argument("--leaks", action="store_true",
@@ -794,7 +797,7 @@ def main():
                 for l, c in ALLCRASH:
                     f.write(l + "\n")
         orc.report()
-        if a.mem or a.failinj:
+        if a.mem or a.failinj or a.memfail:
             drvm = [cb.compile("drv_rdr_mem", [os.path.join(CDIR, "drv_rdr.c")] + cb.lib_sources() + common.alloc_sources(),
                                extra=["-I" + CDIR, "-DLHASA_VERIF"], sanitize=True, libs=common.WRAP)]
             if a.mem:
@@ -802,6 +805,8 @@ def main():
                 bad += nbad
             if a.failinj:
                 failinj_run(drvm, fam, a.failinj, a.dump_mismatches)
+            if a.memfail:
+                bad += memfail_run(drvm, fam, model, a.memfail, a.show, a.dump_mismatches)
         if a.leaks:
             leak_run(cb, drv, fam, model, dump=a.dump_mismatches)
         print("compared %d cases: %s  (%.1fs)" % (total, "all agree" if bad == 0 else "%d MISMATCHES" % bad,
@@ -884,6 +889,98 @@ def mem_run(drvm, fam, model, show, dump):
     for l, c in leaks_in_protocol[:3]:
         print("   " + l[:2000] + "   " + ALLOC_RE.search(c).group(0))
     return nbad + len(leaks_in_protocol)
+
+
+def dup_field_cases(rnd):
+    """headers in which a string field is assigned more than once (an in-header name followed by a file-name
+    extended header, the same extended header twice, a symbolic link assembled from both): the decoder
+    has an old value in hand while it requests the new one"""
+    data = b"hello"
+    lines = []
+
+    def member(lv, name, exts):
+        f = {"level": lv, "method": b"-lh0-", "clen": len(data), "length": len(data), "crc": crc16(data), "os": U,
+             "attr": 0x20, "time": DOS_B if lv == 1 else T_A, "exts": exts}
+        if lv == 1:
+            f["name"] = name
+        return lb.build_header(f) + data
+    dup = [[(1, b"first.txt"), (1, b"second name.txt")], [(2, b"a\xff"), (2, b"b\xffc\xff"), (1, b"f")],
+           [(1, b"f"), (0x52, b"user1"), (0x52, b"user-two")], [(1, b"f"), (0x53, b"grp"), (0x53, b"group2")],
+           [(1, b"n|target1"), (0x50, struct.pack("<H", 0o120777)), (1, b"n|t2")],
+           [(2, b"d\xffl|..\xff"), (0x50, struct.pack("<H", 0o120777)), (1, b"x")],
+           [(1, b"f"), (2, b"d\xff"), (1, b"g"), (2, b"e\xff")]]
+    for lv in (1, 2, 3):
+        for exts in dup:
+            arc = member(lv, b"DIR\\BASENAME.TXT" if lv == 1 else b"", exts) + member(2, b"", [(1, b"after")]) + b"\0"
+            for ops in (["n", "c", "n", "x", "n"], ["n", "x", "n", "n"], ["n", "n", "n"]):
+                lines.append(case(rnd.choice(KINDS), "eod", arc, ops))
+    return lines
+
+
+TAIL_RE = re.compile(r" reads=\S+ skips=\S+ *$")
+
+
+def memfail_run(drvm, fam, model, n, show, dump):
+    """C with the k-th allocation request failing against coq/ReaderMemFail.v: results of every op (so the failure
+    value of the affected call), lb= and rq= after every op and after lha_reader_free, balance at exit.
+    Not compared: the dump of the tree and the stream's read/skip counters (when lha_arch_fopen's fdopen fails the
+    C has created and removed the file; a failed header read stops in the middle of the header).  Progress
+    callbacks are left out (cm -> c, xm -> x): a callback that fired before the failing request is not modelled."""
+    cands = [l for name, ls in fam.items() if not name.startswith("random-abuse") for l in ls if protocol_ok(l)]
+    cands.sort(key=lambda l: (len(l.split()[4]) > 6000, hashlib.md5(l.encode()).hexdigest()))
+    cands = dup_field_cases(random.Random(11)) + cands[:n]
+
+    def plain_ops(l):
+        t = l.split()
+        t[5] = ",".join({"cm": "c", "xm": "x"}.get(o, o) for o in t[5].split(","))
+        return " ".join(t)
+    cands = [plain_ops(l) for l in cands]
+    base = run_lines_parallel(drvm, cands)
+    lines = []
+    for l, c in zip(cands, base):
+        ma = ALLOC_RE.search(c)
+        if not ma:
+            continue
+        t = l.split()
+        for k in range(0, int(ma.group(1)) + 2):          # k = 0 and one beyond the last request: nothing fails
+            lines.append(" ".join(t[:3] + [str(k)] + t[4:]))
+    cout = run_lines_parallel(drvm, lines)
+    mout = run_lines_parallel([model], ["rdrmemfail" + l[3:] for l in lines])
+
+    def norm(o, rx):
+        o = rx.sub("", o.split("|")[0].rstrip())
+        return TAIL_RE.sub("", o).rstrip()
+    cnt = collections.Counter()
+    mism = []
+    for l, c, m in zip(lines, cout, mout):
+        ca, ma = ALLOC_RE.search(c), FINAL_RE.search(m)
+        if "CHILD-FAILED" in c or ca is None:
+            cnt["C crashed"] += 1
+            mism.append((l, c, m))
+        elif "FAULT" in m or ma is None:
+            cnt["model stopped"] += 1
+            mism.append((l, c, m))
+        elif norm(c, ALLOC_RE) == norm(m, FINAL_RE) and ca.group(2) == ma.group(1) and ca.group(3) == ma.group(2):
+            cnt["agree" + (" (a request failed)" if ca.group(4) != "0" else " (no request failed)")] += 1
+            if ca.group(2) != "0" or ca.group(3) != "0":
+                cnt["BLOCKS OR FILES HELD AT EXIT"] += 1
+                mism.append((l, c, m))
+        else:
+            cnt["DISAGREE"] += 1
+            mism.append((l, c, m))
+    print("memfail: %d cases, %d runs: %s" % (len(cands), len(lines), ", ".join("%s %d" % kv for kv in sorted(cnt.items()))))
+    mism.sort(key=lambda x: len(x[0]))
+    for l, c, m in mism[:show]:
+        t = l.split()
+        i, cc, mm = first_diff(norm(c, ALLOC_RE), norm(m, FINAL_RE))
+        print("  case : rdr %s %s %s <%d bytes> %s" % (t[1], t[2], t[3], len(t[4]) // 2, t[5]))
+        print("  C    : ... " + cc + "   " + (ALLOC_RE.search(c).group(0) if ALLOC_RE.search(c) else ""))
+        print("  model: ... " + mm + "   " + (FINAL_RE.search(m).group(0) if FINAL_RE.search(m) else m[-60:]))
+    if dump and mism:
+        with open(dump + ".memfail", "w") as f:
+            for l, c, m in mism:
+                f.write(l + "\n#C " + c + "\n#M " + m + "\n")
+    return len(mism)
 
 
 def failinj_run(drvm, fam, n, dump):
